@@ -319,7 +319,8 @@ def Imp.importPart (imp : Imp) (inds : List (List Nat)) (vals : List Nat) (offs 
       match getE offs (c + 1) "column_offsets[col_idx+1]" with
       | .error e => .error e
       | .ok off1 => imp.typedPart (chunkOf r vals off (off1 - off) n)
-    | _ => imp.typedPart (chunkOf r vals off 0 n)
+    -- (`cap` is read by the leaky importer only; the other transforms never look at it)
+    | _ => imp.typedPart (chunkOf r vals off vals.length n)
 
 /-- `for ith, i_c in enumerate(index_map): field_importer_list[ith].import_part(…, i_c, written_row_count)` -/
 def importAll (inds : List (List Nat)) (vals : List Nat) (offs : List Nat) (n : Nat) :
